@@ -1,0 +1,61 @@
+//go:build verif
+
+package doif
+
+// Contracts for the verification harness under /verif (comment-only file).
+//
+// C14: logical nodes.  Node.Check of an operand is an uninterpreted pure
+// predicate chk(node, data); the result of a logical node is the documented
+// boolean combination of its operands, independent of short-circuiting.
+
+//@ func (*logicalNode).Check
+//@   requires n.op == logicalNot ==> len(n.operands) >= 1
+//@   ghost w int = 0
+//@   setat "if op.Check(data) {" w := rangeindex
+//@   setat "if !op.Check(data) {" w := rangeindex#2
+//@   ensures n.op == logicalOr && result ==> 0 <= w && w < len(n.operands) && up_chk(n.operands[w], data)
+//@   ensures n.op == logicalOr && !result ==> (forall i :: 0 <= i && i < len(n.operands) ==> !up_chk(n.operands[i], data))
+//@   ensures n.op == logicalAnd && result ==> (forall i :: 0 <= i && i < len(n.operands) ==> up_chk(n.operands[i], data))
+//@   ensures n.op == logicalAnd && !result ==> 0 <= w && w < len(n.operands) && !up_chk(n.operands[w], data)
+//@   ensures n.op == logicalNot ==> (result == !up_chk(n.operands[0], data))
+//@   ensures n.op != logicalOr && n.op != logicalAnd && n.op != logicalNot ==> !result
+//@   loop 1 invariant forall k :: 0 <= k && k <= rangeindex ==> !up_chk(n.operands[k], data)
+//@   loop 1 invariant rangeindex < len(n.operands)
+//@   loop 2 invariant forall k :: 0 <= k && k <= rangeindex#2 ==> up_chk(n.operands[k], data)
+//@   loop 2 invariant rangeindex#2 < len(n.operands)
+//@   callee Check(d) (r)
+//@     pure
+//@     ensures r == up_chk(recv, d)
+
+// NewLogicalNode: a node it returns has at least one operand (exactly one for not).
+
+//@ func NewLogicalNode
+//@   option check-nil no
+//@   ensures result1 == nil ==> len(operands) >= 1
+
+// fieldOpNode.Check, list operators: once past the length fast-check, the result
+// is "some configured value satisfies the operator on the (possibly truncated /
+// lowered) event data", independent of the order of the values and of which one
+// is tried first.  contains / has-prefix / has-suffix / regexp match are
+// uninterpreted predicates of (data, value).
+
+//@ func (*fieldOpNode).Check
+//@   ghost w int = 0
+//@   requires n.op == fieldContainsAnyOp ==> len(n.values) >= 1
+//@   requires 0 <= n.minValLen && n.minValLen <= n.maxValLen
+//@   setat "if bytes.Contains(eventData, val) {" w := rangeindex#2
+//@   setat "if bytes.HasPrefix(eventData, val) {" w := rangeindex#3
+//@   setat "if bytes.HasSuffix(eventData, val) {" w := rangeindex#4
+//@   ensures n.op == fieldContainsOp && result ==> 0 <= w && w < len(n.values) && up_bcontains(eventData, n.values[w])
+//@   ensures n.op == fieldContainsOp && !result && len(eventData) >= n.minValLen ==> (forall i :: 0 <= i && i < len(n.values) ==> !up_bcontains(eventData, n.values[i]))
+//@   ensures n.op == fieldPrefixOp && result ==> 0 <= w && w < len(n.values) && up_bhasprefix(eventData, n.values[w])
+//@   ensures n.op == fieldPrefixOp && !result && len(eventData) >= n.minValLen ==> (forall i :: 0 <= i && i < len(n.values) ==> !up_bhasprefix(eventData, n.values[i]))
+//@   ensures n.op == fieldSuffixOp && result ==> 0 <= w && w < len(n.values) && up_bhassuffix(eventData, n.values[w])
+//@   ensures n.op == fieldSuffixOp && !result && len(eventData) >= n.minValLen ==> (forall i :: 0 <= i && i < len(n.values) ==> !up_bhassuffix(eventData, n.values[i]))
+//@   loop 2 invariant rangeindex#2 < len(n.values) && (forall i :: 0 <= i && i <= rangeindex#2 ==> !up_bcontains(eventData, n.values[i]))
+//@   loop 3 invariant rangeindex#3 < len(n.values) && (forall i :: 0 <= i && i <= rangeindex#3 ==> !up_bhasprefix(eventData, n.values[i]))
+//@   loop 4 invariant rangeindex#4 < len(n.values) && (forall i :: 0 <= i && i <= rangeindex#4 ==> !up_bhassuffix(eventData, n.values[i]))
+//@   callee Get(path) (r)
+//@     pure
+//@   callee Match(b) (r)
+//@     pure
